@@ -291,6 +291,7 @@ def attached_case(draw):
                 other=draw(go.elements(hyperbolic=False, emax_ell=0.9)),
                 orientation=draw(st.sampled_from([None, "QSW", "TNW", "qsw", "Tnw"])),
                 ref=draw(st.sampled_from(["orbit", "orbit", "statevector"])),
+                ref_form=draw(st.sampled_from(["cartesian", "cartesian", "cartesian", "keplerian"])),
                 dt=draw(st.one_of(st.just(0.0), fu(-3000.0, 3000.0))),
                 t=draw(go.uniform_int(0, 10 * 365 * 86400 * 10**6)),
                 near=draw(st.booleans()), sep=draw(vec3(-1.0, 5.0)))
@@ -306,12 +307,11 @@ def check_attached(case):
     d0 = mkdate(case["t"])
     _counter[0] += 1
     name = f"VF17S{_shard}N{_counter[0]}"
+    # the same state, possibly held in another form (C01: forms are views of one state)
+    ref = StateVector(c0, d0, "cartesian", "EME2000").copy(form=case.get("ref_form", "cartesian"))
     if case["ref"] == "orbit":
-        ref = Orbit(c0, d0, "cartesian", "EME2000", "Kepler")
-        dt = case["dt"]
-    else:
-        ref = StateVector(c0, d0, "cartesian", "EME2000")
-        dt = case["dt"]  # a bare state has no motion: the frame stays where the state is
+        ref = ref.as_orbit("Kepler")
+    dt = case["dt"]  # (a bare state has no motion: the frame stays where the state is)
     kw = {} if case["orientation"] is None else dict(orientation=case["orientation"])
     frame = ref.as_frame(name, **kw)
     date = d0 + timedelta(seconds=dt)
@@ -321,6 +321,8 @@ def check_attached(case):
     k = 1 / abs(1 - el["e"])
     if el["e"] > 1:
         k *= math.cosh(el["anom"]) ** 2
+    if case.get("ref_form", "cartesian") != "cartesian":
+        k = 10 * k / math.sin(el["i"])  # C01: 1e-11 kappa / sin i for the form conversion
     rn = float(np.linalg.norm(centre[:3]))
     vn = float(np.linalg.norm(centre[3:]))
     # the library moves the reference orbit with its analytical Kepler propagator (C05: 1e-9 kappa relative)
@@ -330,10 +332,9 @@ def check_attached(case):
 
     # (1) the orbit itself sits at the origin of its frame
     own = ref.propagate(date) if case["ref"] == "orbit" else StateVector(c0, date, "cartesian", "EME2000")
-    if case["ref"] == "orbit" and dt == 0.0:
-        ptol0, vtol0 = 1e-6 + 1e-9 * k * rn, 1e-9 + 1e-9 * k * vn
-    else:
-        ptol0, vtol0 = ptol, vtol
+    if case.get("ref_form", "cartesian") != "cartesian":
+        ptol, vtol = 1e-6 + 1e-9 * k * rn, 1e-9 + 1e-9 * k * vn
+    ptol0, vtol0 = ptol, vtol
     z = np.asarray(own.copy(frame=frame, form="cartesian").base, float)
     if not np.all(np.isfinite(z)):
         raise Violation("attached-nonfinite", f"orbit in its own frame: {z.tolist()}")
@@ -341,7 +342,8 @@ def check_attached(case):
     worst = max(worst, dp / ptol0, dv / vtol0)
     if dp > ptol0 or dv > vtol0:
         raise Violation("attached-origin", f"the orbit expressed in the frame attached to it is at {dp:.6g} m, "
-                        f"{dv:.6g} m/s from the origin (orientation {case['orientation']!r}, ref {case['ref']}, dt {dt})")
+                        f"{dv:.6g} m/s from the origin (orientation {case['orientation']!r}, ref {case['ref']} held in form "
+                        f"{case.get('ref_form', 'cartesian')}, dt {dt})", ref_form=case.get("ref_form", "cartesian"))
     # (2) another state: position axes are the triad, conversion is lossless
     if case["near"]:
         x = centre + np.concatenate([case["sep"], np.asarray(case["sep"]) * 1e-3])
@@ -377,7 +379,7 @@ def check_attached(case):
     if dp > rt_p or dvv > rt_v:
         raise Violation("attached-roundtrip", f"parent -> frame -> parent moves the state by {dp:.6g} m, {dvv:.6g} m/s")
     cls = el_classes(el) + [f"orient:{case['orientation']}", f"ref:{case['ref']}", "dt=0" if dt == 0 else "dt!=0",
-                            "near" if case["near"] else "far"]
+                            "near" if case["near"] else "far", f"ref_form:{case.get('ref_form', 'cartesian')}"]
     return dict(nt=True, cls=cls, ratio=worst)
 
 
@@ -754,7 +756,8 @@ def dkep_case(draw):
     el = draw(go.elements(elliptic=not hyp, hyperbolic=hyp, emax_ell=0.9, emax_hyp=5.0, hmax=3.0))
     el["i"] = min(max(el["i"], 0.12), math.pi - 0.12)  # the node stays defined after di <= 0.05
     return dict(el=el, da=draw(increment(-3.0, 5.0)), di=draw(increment(-9.0, math.log10(0.05))),
-                dO=draw(increment(-9.0, math.log10(0.05))), t=draw(go.uniform_int(0, 5 * 365 * 86400 * 10**6)))
+                dO=draw(increment(-9.0, math.log10(0.05))), t=draw(go.uniform_int(0, 5 * 365 * 86400 * 10**6)),
+                form=draw(st.sampled_from(["cartesian", "cartesian", "cartesian", "keplerian"])))
 
 
 def check_dkep(case):
@@ -783,7 +786,8 @@ def check_dkep(case):
                 nu = tb.angdiff(u_ref - el["argp"], 0.0)
         el["nu"] = nu
     c = cart(el, mu)
-    sv = StateVector(c, date, "cartesian", "EME2000")
+    form = case.get("form", "cartesian")
+    sv = StateVector(c, date, "cartesian", "EME2000").copy(form=form)
     with np.errstate(all="ignore"):
         dv = np.asarray(dkep2dv(sv, da=da, di=di, dOmega=dO), float)
         man = KeplerianImpulsiveMan(date, da=da, di=di, dOmega=dO)
@@ -792,13 +796,16 @@ def check_dkep(case):
     if dv.shape != (3,) or not np.all(np.isfinite(dv)):
         raise Violation("dkep-nonfinite", f"dkep2dv(da={da!r}, di={di!r}, dOmega={dO!r}) = {dv.tolist()}", small=small)
     if dvi.shape != (3,) or not np.all(np.isfinite(dvi)):
-        raise Violation("dkep-nonfinite", f"KeplerianImpulsiveMan(da={da!r}, di={di!r}, dOmega={dO!r}).dv = {dvi.tolist()}",
-                        small=small)
+        raise Violation("dkep-nonfinite" if form == "cartesian" else "dkep-man-axes",
+                        f"KeplerianImpulsiveMan(da={da!r}, di={di!r}, dOmega={dO!r}).dv = {dvi.tolist()} for a state held in form {form}",
+                        small=small, form=form)
     want = ig.to_inertial(dv, c, "TNW")
     mag = float(np.linalg.norm(dv))
     vn = float(np.linalg.norm(c[3:]))
-    if float(np.linalg.norm(dvi - want)) > 1e-12 * mag + 1e-16 * vn:
-        raise Violation("dkep-man-axes", f"KeplerianImpulsiveMan.dv = {dvi.tolist()}, TNW^T . dkep2dv = {want.tolist()}")
+    kf = 1e-12 if form == "cartesian" else 1e-12 + 1e-10 / abs(1 - e) * (math.cosh(el["anom"]) ** 2 if e > 1 else 1) / math.sin(inc)
+    if float(np.linalg.norm(dvi - want)) > kf * mag + 1e-16 * vn:
+        raise Violation("dkep-man-axes", f"KeplerianImpulsiveMan.dv = {dvi.tolist()} for a state held in form {form}, "
+                        f"TNW^T . dkep2dv = {want.tolist()}", form=form)
     # realised increments
     c2 = np.array(c, float)
     c2[3:] += dvi
@@ -834,6 +841,7 @@ def check_dkep(case):
         cls.append("tiny-or-zero")
     if cosg < 0.98:
         cls.append("fpa>11deg")
+    cls.append(f"form:{form}")
     return dict(nt=True, cls=cls, ratio=max(parts.values()), parts=parts)
 
 
